@@ -91,7 +91,7 @@ func newC01World(c *rig.Ctx, T model.FeatureTypeType) *c01World {
 		cw.srv.AddFunctionType(f.Fn, true, wr)
 		cw.writable[f.Fn] = wr
 	}
-	cw.cli = e.GetOrAddFeature(T, model.RoleTypeClient) // [1]/2
+	cw.cli = e.GetOrAddFeature(T, model.RoleTypeClient)  // [1]/2
 	cw.spc = e.GetOrAddFeature(T, model.RoleTypeSpecial) // [1]/3
 	for i, f := range cw.fns {
 		cw.spc.AddFunctionType(f.Fn, true, i%2 == 0)
